@@ -57,6 +57,7 @@ pub enum Action<'a> {
     Record(&'a Path, &'a Path),
     /// (seed, idx, variant, tier, print the scenario instead of executing it)
     Probe(u64, u64, u64, crate::core::Tier, bool),
+    ProbeJson(&'a Path),
 }
 
 fn act<P: Property>(a: &Action) -> i32 {
@@ -67,6 +68,7 @@ fn act<P: Property>(a: &Action) -> i32 {
         Action::Survey(seed, n) => core::survey::<P>(*seed, *n),
         Action::Record(a, b) => core::record::<P>(a, b),
         Action::Probe(seed, idx, variant, tier, print) => core::probe::<P>(*seed, *idx, *variant, *tier, *print),
+        Action::ProbeJson(f) => core::probe_json::<P>(f),
     }
 }
 
